@@ -527,7 +527,11 @@ class Parser:
             self.pop_token()
             self.expect_number()
             token = self.pop_token()
-            version = int(token.value)
+            try:
+                version = int(token.value)
+            except (OverflowError, ValueError):
+                raise InvalidNumericValue(token, f"Expected 0 < value <= {VERSION}!")
+
             if not (0 < version <= VERSION):
                 raise InvalidNumericValue(token, f"Expected 0 < value <= {VERSION}!")
 
